@@ -167,6 +167,31 @@ def judge(case, seq, data, exc, acc) -> None:
                       f"{msg} case={case}", case)
 
 
+def longrun_shard(job) -> dict:
+    """One graph name for thousands of consecutive quads (beyond any internal buffer size),
+    between two short runs: still one graph start per run."""
+    from mc import drivers as DR  # noqa: PLC0415
+    from mc.terms import I, L  # noqa: PLC0415
+
+    _, writer, n = job
+    acc = pool.Acc()
+    g1, g2 = I("http://g/1"), I("http://g/2")
+    seq = [(I("http://a/s"), I("http://a/p"), L("first"), g1)]
+    seq += [(I(f"http://a/s{i % 7}"), I("http://a/p"), L(str(i)), g2) for i in range(n)]
+    seq += [(I("http://a/s"), I("http://a/p"), L("last"), g1)]
+    case = {"family": "longrun", "cls": "graph", "preset": [4000, 150, 32], "delimited": True,
+            "writer": writer, "n": n}
+    acc.evals += 1
+    acc.nontrivial += 1
+    try:
+        data = DR.g_write(seq, "graph", DR.make_options("graph", (4000, 150, 32), 250, True), writer)
+    except Exception as e:  # noqa: BLE001
+        judge(case, seq, None, e, acc)
+    else:
+        judge(case, seq, data, None, acc)
+    return acc.out()
+
+
 def ns_shard(job) -> dict:
     """Streams that carry namespace declarations (C14's space): the IRI of a declaration goes
     through the same tables and delta rules as any other IRI."""
@@ -210,6 +235,10 @@ def shard(job) -> dict:
         out = ns_shard(job)
         out["extra"] = {}
         return out
+    if job[0] == "L":
+        out = longrun_shard(job)
+        out["extra"] = {}
+        return out
     if job[0] == "R":
         from mc import rtrdflib  # noqa: PLC0415
 
@@ -235,6 +264,9 @@ def run(ctx) -> None:
     njobs = [("N", api, cls, pi, lo, hi) for api in ("generic", "rdflib") for cls in DR.CLASSES
              for pi in range(len(c14.PRESETS)) for lo, hi in pool.split_range(nb, 2)]
     expected += sum((j[5] - j[4]) * len(c14.stmt_seqs(j[2])) for j in njobs)
+    ljobs = [("L", w, n) for w in ("stream_frames_gen", "stream_frames_sink") for n in (4096, 4097, 10000)]
+    expected += len(ljobs)
+    njobs = njobs + ljobs
     merged = pool.merge(pool.pmap(shard, jobs + rjobs + njobs))
     ctx.add(merged)
     if merged["evals"] != expected:
@@ -261,6 +293,9 @@ def run(ctx) -> None:
 
 
 def replay(case: dict) -> list:
+    if case.get("family") == "longrun":
+        out = longrun_shard(("L", case["writer"], case["n"]))
+        return [v["what"] for v in out["violations"]]
     if case.get("ns"):
         from mc import drivers as DR  # noqa: PLC0415
 
